@@ -6,7 +6,7 @@ import os, re, shutil, sys
 HERE = os.path.dirname(os.path.abspath(__file__))
 REPO = os.environ.get("VERIF_REPO", "/repo")
 SRC = os.path.join(REPO, "iceoryx2-pal", "concurrency-sync")
-DST = os.path.join(HERE, "sync-dropin")
+DST = sys.argv[1] if len(sys.argv) > 1 else os.path.join(HERE, "..", "..", "build", "sync-dropin")
 
 def main():
     tmp = DST + ".tmp"
